@@ -286,7 +286,8 @@ func (s *state) walk(dot reflect.Value, node parse.Node) {
 func (s *state) walkIfOrWith(typ parse.NodeType, dot reflect.Value, pipe *parse.PipeNode, list, elseList *parse.ListNode) {
 	// defer s.pop(s.mark())
 	val := s.evalPipeline(dot, pipe)
-	truth, ok := isTrue(val)
+	// page data and loop elements arrive wrapped in the Object interface; judge the value inside, as truth() does
+	truth, ok := isTrue(indirectInterface(val))
 	if !ok {
 		s.errorf("if/with can'e use %v", val)
 	}
